@@ -112,7 +112,18 @@ structure UpdErr (s s1 : State) (id : PoolId) (p : Pool) (e : Err) : Prop where
   params  : s1.params = s.params
   ledger  : s1.ledger = s.ledger
   bank    : (∀ w, e ≠ .panic w) → s1.bank = s.bank
-  pools   : s1.pools = s.pools ∨ ∃ rs, s1.pools = AMap.set s.pools id { p with rules := rs }
+  pools   : s1.pools = s.pools ∨ ∃ rs, s1.pools = AMap.set s.pools id { p with rules := rs } ∧
+              rs.map (·.denom) = p.rules.map (·.denom)
+
+theorem collectRules_denoms (i L : Nat) : ∀ (rs : List Rule), (collectRules i L rs).1.map (·.denom) = rs.map (·.denom)
+  | [] => rfl
+  | r :: rs => by
+    unfold collectRules
+    split
+    · rfl
+    · rename_i r' hr
+      simp only [List.map_cons]
+      rw [collectRules_denoms i L rs, (stepped_facts hr).1]
 
 theorem updatePool_err {s s1 : State} {id : PoolId} {p : Pool} {amount : Int} {isDestroy : Bool} {e : Err}
     (h : updatePool s id p amount isDestroy = (s1, .error e)) : UpdErr s s1 id p e := by
@@ -131,20 +142,20 @@ theorem updatePool_err {s s1 : State} {id : PoolId} {p : Pool} {amount : Int} {i
   split at h
   · split at h
     · simp only [Prod.mk.injEq] at h; rw [← h.1]
-      exact ⟨rfl, rfl, rfl, rfl, rfl, rfl, fun _ => rfl, Or.inr ⟨_, rfl⟩⟩
+      exact ⟨rfl, rfl, rfl, rfl, rfl, rfl, fun _ => rfl, Or.inr ⟨_, rfl, collectRules_denoms _ _ _⟩⟩
     · unfold releaseAndFinish at h
       split at h
       · have := (hfin _ _ _ h).1; rw [this]
-        exact ⟨rfl, rfl, rfl, rfl, rfl, rfl, fun _ => rfl, Or.inr ⟨_, rfl⟩⟩
+        exact ⟨rfl, rfl, rfl, rfl, rfl, rfl, fun _ => rfl, Or.inr ⟨_, rfl, collectRules_denoms _ _ _⟩⟩
       · split at h
         · simp only [Prod.mk.injEq] at h; rw [← h.1]
-          exact ⟨rfl, rfl, rfl, rfl, rfl, rfl, fun _ => rfl, Or.inr ⟨_, rfl⟩⟩
+          exact ⟨rfl, rfl, rfl, rfl, rfl, rfl, fun _ => rfl, Or.inr ⟨_, rfl, collectRules_denoms _ _ _⟩⟩
         · rename_i s2 hs2
           obtain ⟨hs, w, hw⟩ := hfin _ _ _ h
           rw [hs]
           obtain ⟨bo, _⟩ := sendAll_ok hs2
           exact ⟨bo.farmers, bo.queue, bo.height, bo.seq, bo.params, bo.ledger,
-                 fun hn => absurd hw (hn w), Or.inr ⟨_, bo.pools⟩⟩
+                 fun hn => absurd hw (hn w), Or.inr ⟨_, bo.pools, collectRules_denoms _ _ _⟩⟩
   · have := (hfin _ _ _ h).1; rw [this]; exact ⟨rfl, rfl, rfl, rfl, rfl, rfl, fun _ => rfl, Or.inl rfl⟩
 
 end Irismod.Proofs.Farm
